@@ -83,6 +83,9 @@ type Disk struct {
 	// FailOpen, if set, may return an error for an open of path (descriptor table full, disk
 	// full, permission lost); nothing is created in that case.
 	FailOpen func(path string, flag int) error
+	// OnStat is called at the start of every Stat of a path (an external actor may act right
+	// before the caller sees the file's attributes).
+	OnStat func(path string)
 }
 
 var D *Disk
@@ -313,6 +316,9 @@ func Executable() (string, error) {
 //go:norace
 func Stat(name string) (FileInfo, error) {
 	simrt.YS()
+	if dd := disk(); dd.OnStat != nil {
+		dd.OnStat(clean(name))
+	}
 	d := disk()
 	n := d.lookup(name)
 	if n == nil {
